@@ -3,4 +3,7 @@ CONSTANTS
   K = 3
   TokSel = "all"
   RangeTokSel = "ends"
-INVARIANTS ClassesOK Emit
+  QuadTokSel = "mid"
+  SecClasses = {"docStart", "tokStart", "tokInside", "eolPlus", "lastPlus", "max"}
+  ListMax = 3
+INVARIANTS ClassesOK ShapeOK Emit
